@@ -7,7 +7,7 @@
    statements that were refuted of the earlier code (sasl.go's unflushed <success/>,
    features.go's early Ready bit, session.go's unnoticed cancellation) now hold at full
    strength, and their former witnesses are scenarios of the harness. *)
-From XV Require Import lib.Bytes gen.NegTables C04.Model C04.Generic C04.Structure C04.Fuel C04.Proofs.
+From XV Require Import lib.Bytes gen.NegTables C04.Model C04.Generic C04.Structure C04.Fuel C04.Steps C04.Proofs.
 
 (* ---- A nil error is returned only for a session whose every executed step succeeded:
    for every configuration, plan (any faults, any cancellation), scripts and callback values,
@@ -23,6 +23,16 @@ Theorem C04_nil_error_means_all_steps_ok :
     run cfg pl bits clear tls calls = (ROk tt, w) -> all_steps_ok (w_trace w).
 Proof. exact run_ok_clean. Qed.
 Print Assumptions C04_nil_error_means_all_steps_ok.
+
+(* ... and every Negotiate step that was started returned without an error: run_feature logs
+   ENegStart, runs the Negotiate of the selected feature (built-in or custom), and logs ENegOk
+   only when it returned no error, so a failed Negotiate leaves an ENegStart without its
+   ENegOk; in a run that returns Ok there are as many of the one as of the other. *)
+Theorem C04_nil_error_means_negotiates_completed :
+  forall cfg pl bits clear tls calls w,
+    run cfg pl bits clear tls calls = (ROk tt, w) -> starts (w_trace w) = oks (w_trace w).
+Proof. exact run_ok_negotiates_completed. Qed.
+Print Assumptions C04_nil_error_means_negotiates_completed.
 
 (* ---- An error result never comes with the Ready bit. *)
 Theorem C04_error_state_not_ready :
